@@ -34,6 +34,10 @@ CHECKS = {
          "TLC maps every 2D probe exactly onto the section (rational arithmetic on Pythagorean directions), checks that the probes stay away from straight feature boundaries, and every section x position x depth x property list is replayed: the 2D reply must equal the 3D reply at the mapped point block by block, velocities as the specified projection, and a world without cross section must refuse.",
          "36 sections (origins x 6 directions x Cartesian/spherical), 45 property lists; tolerance 1e-9 because the code's own mapping rounds; " + NOTE,
          "TLA+/TLC (CrossSection.tla) + replay comparing 2D and 3D replies"),
+ "C10": ("model_checking",
+         "Sections.tla specifies which models a segment resolves to (segment, else section, else feature) for every placement of temperature and composition models over three trench coordinates, and the two re-layouts the statement names; TLC enumerates all placements (and checks the oracle's own locality); each placement is replayed: as-written, explicit and repeated layouts must answer bit-identically, values lie between the two neighbouring coordinates' resolved values and equal a coordinate's own value at the coordinate, and removing one coordinate's entry leaves answers strictly beyond its neighbours bit-identical.",
+         "2 x 10^3 placements (quick: every second), 9 positions along a straight three-coordinate trench, uniform models; " + NOTE,
+         "TLA+/TLC (Sections.tla resolution oracle) + replay with twin worlds, bitwise"),
  "C11": ("model_checking",
          "Surface.tla specifies the nodal values of a depth surface (last entry naming a coordinate wins, point-less entries name every corner) and transcribes the merge mechanism with its approx-based same-point test; TLC checks that the mechanism yields exactly one node per coordinate with the specified value for every configuration, and each configuration is replayed: the depth actually used is observed 1 m above / below the predicted depth at every nodal point and inside the polygon (exact for affine data, min/max bounds otherwise).",
          "3 polygons x listed-corner subsets x 0-2 interior points x affine/bumped x entry order (306 configurations), Cartesian integer metres; " + NOTE,
